@@ -85,7 +85,9 @@ def run(ctx):
                           {"case": c["id"], "planted": planted, "spec": c["spec"], "stderr": pv["stderr"][-1500:]})
         elif pv["class"]["panicked"] or pv["rc"] not in (0, 1) or pv["class"]["n_error"] == 0:
             st["panicked"] += 1
-            ctx.violation({"rule": "refused_without_diagnostic", "operator": op, "variant": variant,
+            from e2e import patterns
+            pat = patterns.pattern_for_panic(c["spec"], pv["class"]["panic_loc"], pv["class"]["panic_msg"])
+            ctx.violation({"rule": "refused_without_diagnostic", "operator": op, "variant": variant, "pattern": pat,
                            "loc": evaluate.norm_loc(pv["class"]["panic_loc"]), "msg": evaluate.norm_msg(pv["class"]["panic_msg"])},
                           {"case": c["id"], "planted": planted, "spec": c["spec"], "rc": pv["rc"], "stderr": pv["stderr"][-2500:]})
         else:
